@@ -10,10 +10,12 @@ import (
 	"sort"
 	"strings"
 	"sync"
+	"sync/atomic"
 	"time"
 
 	"github.com/google/osv-scalibr/extractor/filesystem"
 	el "github.com/google/osv-scalibr/extractor/filesystem/list"
+	"github.com/google/osv-scalibr/extractor/filesystem/os/rpm"
 	"github.com/google/osv-scalibr/plugin"
 )
 
@@ -111,6 +113,10 @@ type extInfo struct {
 	Zip      bool // fixtures include zip archives (jar / egg)
 }
 
+// rpmShortTimeout makes Registry().New build os/rpm with a 300 ms parse timeout (see C02 known
+// finding os/rpm|bdb_overflow_cycle_timeout; C06 always sets it: side effects, not time, are its subject).
+var rpmShortTimeout atomic.Bool
+
 var (
 	regOnce sync.Once
 	regList []*extInfo
@@ -170,7 +176,15 @@ func buildRegistry() {
 		if len(fns) == 0 {
 			continue
 		}
-		newFn := func() filesystem.Extractor { return fns[0]() }
+		newFn := func() filesystem.Extractor {
+			e := fns[0]()
+			if r, ok := e.(*rpm.Extractor); ok && rpmShortTimeout.Load() {
+				// known finding os/rpm|bdb_overflow_cycle_timeout: the default 5 min timeout is the only
+				// bound of a looping Berkeley DB page chain; bound it tightly so that the campaign goes on
+				r.Timeout = 300 * time.Millisecond
+			}
+			return e
+		}
 		ex := newFn()
 		ei := &extInfo{Name: ex.Name(), New: newFn, Req: *ex.Requirements()}
 		t := reflect.TypeOf(ex)
@@ -187,7 +201,7 @@ func buildRegistry() {
 		if len(ei.Prod) > 12 {
 			var only []prodPath
 			for _, pp := range ei.Prod {
-				if pp.Exec {
+				if pp.Exec || strings.HasSuffix(pp.Path, ".dll") || strings.HasSuffix(pp.Path, ".exe") {
 					only = append(only, pp)
 				}
 			}
